@@ -25,7 +25,7 @@ import traceback
 from .paths import VERIF, REPO
 
 PY = sys.executable
-RUN_TIMEOUT_S = 120
+RUN_TIMEOUT_S = 300
 
 
 def H(*parts):
@@ -249,7 +249,7 @@ def worker_main(argv):
     agg = {
         'runs': 0, 'ops': 0, 'digests': {}, 'probes': {}, 'faults': {}, 'transitions': set(),
         'klass': {}, 'nontrivial_keys': set(), 'violations': [], 'harness_errors': [], 'refused': 0,
-        'samples': [], 'stopped_early': False,
+        'samples': [], 'stopped_early': False, 'slowest': [0.0, -1],
     }
     for i in range(first + shard, first + count, of):
         if time.monotonic() > deadline:
@@ -264,7 +264,11 @@ def worker_main(argv):
             continue
         scenario['_run'] = i
         scenario['_seed'] = seed
+        _t0 = time.monotonic()
         res = execute_one(engine, scenario, ctx)
+        _dt = time.monotonic() - _t0
+        if _dt > agg['slowest'][0]:
+            agg['slowest'] = [round(_dt, 2), i]
         agg['runs'] += 1
         if 'harness_error' in res:
             agg['harness_errors'].append({'run': i, 'error': res['harness_error'], 'scenario': scenario})
